@@ -275,7 +275,10 @@ class UnionMarshaller(AbstractMarshaller[UnionT], tp.Generic[UnionT]):
         super().__init__(t, context, var=var)
         self.stack = inspection.args(t, evaluate=True)
         self.nullable = inspection.isoptionaltype(t)
-        self.ordered_routines = [self.context[typ] for typ in self.stack]
+        # `None` is passed through up-front, its no-op routine would accept any value.
+        self.ordered_routines = [
+            self.context[typ] for typ in self.stack if not inspection.isnonetype(typ)
+        ]
 
     def __call__(self, val: UnionT) -> serdes.MarshalledValueT:
         """Marshal a value into the bound `UnionT`.
